@@ -133,6 +133,38 @@ def gen_c18(rng, tier, skip):
     return case
 
 
+def gen_c18_split(rng, tier, skip, msgb):
+    """A conforming raw client whose (harmless) message reaches the daemon in two pieces a few frame periods apart - the daemon does
+    not write to a client it is reading a message from, so frames queue up for it in the daemon - while a library client changes its
+    services several times. The raw client never changes its own services and pauses for less than the daemon's queue holds:
+    it must receive consecutive frames."""
+    case = common(rng, 'C18', skip, allow_tsan=False)
+    case['variant'] = 'select'
+    case['tsan'] = False
+    case['opts'] = []
+    case['period_us'] = rng.choice([20000, 25000, 30000])
+    case['buffers'] = None
+    case['kind'] = 'split'
+    per = case['period_us'] / 1000.0
+    m, T = msgb, msgb.T
+    svc_b = rng.choice([pref.TTX_B, pref.VPS, pref.TTX_B | pref.VPS, pref.CC625 | pref.WSS625, pref.SUPPORTED])
+    msg = m.raw(T['CHN_NOTIFY_REQ'], m.notify_req(0, 0))
+    ops = [['c'], _send(m.raw(T['CONNECT_REQ'], m.connect_req(svc_b, name=b'split')), t='CONNECT_REQ', benign=True, services=svc_b),
+           ['w', T['CONNECT_CNF'], 1000], ['r', 300]]
+    for _ in range(rng.choice([2, 3, 4])):
+        ops.append(['p', rng.choice([1, 2, 4, 7, 9]), int(rng.choice([2, 3]) * per), msg.hex(), {'benign': True, 't': 'CHN_NOTIFY_REQ'}])
+        ops.append(['r', rng.choice([100, 200])])
+    ops += [['r', 300], ['x']]
+    raw = {'kind': 'raw', 'name': 'b0', 'delay_ms': 0, 'ops': ops, 'continuity': True}
+    lops = [['C', services(rng, False) or pref.VPS, 0, 8, 0], ['T', 250]]
+    for _ in range(rng.choice([10, 14, 18])):
+        lops.append(['U', services(rng, False), rng.choice([0, 1]), rng.choice([0, 0, 1])])
+        lops.append(['T', rng.choice([10, 20, 30])])
+    lops += [['R', 5], ['D']]
+    case['clients'] = [raw, {'kind': 'lib', 'name': 'c0', 'delay_ms': rng.choice([0, 50]), 'ops': lops}]
+    return case
+
+
 # ---------------------------------------------------------------------------------------------------------------
 def _send(hexbytes, **meta):
     return ['s', hexbytes.hex() if isinstance(hexbytes, (bytes, bytearray)) else hexbytes, meta]
